@@ -298,6 +298,7 @@ func checkMain(args []string) {
 	for _, o := range failed {
 		if f := matchFinding(kf, id, o); f != nil {
 			knownHit = append(knownHit, o.Name)
+			nOb-- // a listed open finding is reported as such, not as part of the proof claim
 			lines = append(lines, fmt.Sprintf("KNOWN-FINDING: property=%s %s [%s]", id, f.What, o.Name))
 			continue
 		}
@@ -399,7 +400,7 @@ func checkMain(args []string) {
 			"by_backend": bbEv, "slowest": slowest, "samples": samples,
 			"canaries": map[string]int{"planted": nCanary, "shown_reachable": nCanaryReach},
 			"undecided": undecidedFns, "bounded": bounded, "undecided_fallback_rac": fallback,
-			"known_findings_hit": knownHit, "not_decided": ps.NotDecided, "decided_under_another_property": decidedElsewhere,
+			"known_findings_hit": knownHit, "open_findings_not_counted_as_obligations": len(knownHit), "not_decided": ps.NotDecided, "decided_under_another_property": decidedElsewhere,
 			"load_secs": tLoad, "solver_timeout_s": secs,
 			"contract_files": w.Specs.Files,
 		},
